@@ -38,3 +38,9 @@ Theorem C06_convex : forall c, ka c == 1 -> kb c == 0 -> kc c == 1 -> 0 <= kr c 
     forall k y, nth_error ys k = Some y -> Conv (firstn (S k) zs) y.
 Proof. exact kalman_convex. Qed.
 Print Assumptions C06_convex.
+
+(* ---- the generic (float / integer) model of the bit-exact stream, instantiated at the rationals, is the model above ---- *)
+From Signalo Require Base.Arith Model.Generic Proofs.Generic.
+Theorem C06_generic_kalman : forall c s zu, match Signalo.Model.Generic.g_k_process Signalo.Base.Arith.Qar (Signalo.Model.Smooth.kr c) (Signalo.Model.Smooth.kq c) (Signalo.Model.Smooth.ka c) (Signalo.Model.Smooth.kb c) (Signalo.Model.Smooth.kc c) s zu with Some (s', y) => Some (Signalo.Proofs.Generic.k_of s', y) | None => None end = Signalo.Model.Smooth.k_process c (Signalo.Proofs.Generic.k_of s) zu.
+Proof. exact Signalo.Proofs.Generic.gq_kalman. Qed.
+Print Assumptions C06_generic_kalman.
